@@ -266,11 +266,16 @@ class Lane(LaneBase):
             return self._run_mixed(case, rng)
         n = case['n']
         names = NAMES[:n]
-        edges = [(NAMES[a], NAMES[b]) for a, b in case['edges']]
+        ts_cls = None
+        if case['kind'] == 'dag' and case['seed'] % 4 == 0 and n >= 2:
+            # the same DAG as a time-series graph: names whose lags grow with depth, so that every edge respects time
+            from cai_causal_graph import TimeSeriesCausalGraph as ts_cls
+            names = gen.ts_names(n, [tuple(e) for e in case['edges']])
+        edges = [(names[a], names[b]) for a, b in case['edges']]
         if case['kind'] == 'cyclic':
             g = gen.build_mixed(names, [(a, b, '->') for a, b in edges], validate=False)
         else:
-            g = gen.build_dag(n, case['edges'])
+            g = gen.build_dag(n, case['edges'], names=names, cls=ts_cls)
         hn, he = hxlist(names), hxedges(edges)
         lines, impl, oracle, tags = [], [], [], [f'kind={case["kind"]}', f'n={n}', f'm={len(edges)}']
         if case['kind'] == 'dag' and n >= 3:
